@@ -195,6 +195,9 @@ type pathCtx struct {
 	mapOrder                                             int
 	approx                                               int64
 	ufCache                                              map[string]*Term
+	locksHeld                                            int
+	sharedWrites                                         []string
+	sharedWriteNames                                     map[string]bool
 	jsonSent                                             map[int64]*Term
 	jsonSentRev                                          map[*Term]int64
 	top                                                  *frame
